@@ -20,7 +20,7 @@ Fixpoint reloadable (n : node) : bool :=
   | NFloat _ | NInt _ | NBool _ | NStr _ | NNone => true
   | NTuple _ ms => all ms
   | NBinop _ _ ln rn l r => String.eqb ln "left_" && String.eqb rn "right_" && negb (same_prior l r) && reloadable l && reloadable r
-  | NUnop _ _ _ a => negb (is_prior a) && reloadable a
+  | NUnop _ _ _ a => false
   | NModel _ _ _ _ attrs => has_prior n && all attrs
   | NColl _ k attrs => Z.eqb k (if reload_restores_item_number then count_digit_keys attrs else 0) && all attrs
   | NInst _ _ _ attrs => all attrs
@@ -55,8 +55,7 @@ Proof.
   - cbn [reloadable] in H. repeat (apply andb_true_iff in H; destruct H as [H ?]).
     apply String.eqb_eq in H. apply String.eqb_eq in H3. apply negb_true_iff in H2. subst ln rn.
     cbn [reload]. rewrite (IHl H1), (IHr H0), H2. reflexivity.
-  - cbn [reloadable] in H. apply andb_true_iff in H. destruct H as [H1 H2].
-    cbn [reload]. apply negb_true_iff in H1. rewrite H1, (IHa H2). reflexivity.
+  - discriminate H.
   - change (reloadable (NModel mid lbl cls cargs attrs))
       with (has_prior (NModel mid lbl cls cargs attrs) &&
             (fix go (l : list (string * node)) : bool :=
